@@ -5,6 +5,7 @@
 package simnet
 
 import (
+	"context"
 	"errors"
 	"fmt"
 	"io"
@@ -21,12 +22,54 @@ import (
 
 // Re-exports so that substituted files keep compiling.
 type (
-	Conn    = net.Conn
-	Addr    = net.Addr
-	Error   = net.Error
-	IP      = net.IP
-	OpError = net.OpError
+	Conn                = net.Conn
+	Addr                = net.Addr
+	Error               = net.Error
+	IP                  = net.IP
+	IPNet               = net.IPNet
+	IPMask              = net.IPMask
+	OpError             = net.OpError
+	AddrError           = net.AddrError
+	DNSError            = net.DNSError
+	ParseError          = net.ParseError
+	InvalidAddrError    = net.InvalidAddrError
+	UnknownNetworkError = net.UnknownNetworkError
+	TCPAddr             = net.TCPAddr
+	TCPConn             = net.TCPConn
+	UDPAddr             = net.UDPAddr
+	UnixAddr            = net.UnixAddr
+	Listener            = net.Listener
+	Buffers             = net.Buffers
+	PacketConn          = net.PacketConn
+	Resolver            = net.Resolver
 )
+
+var (
+	ErrClosed           = net.ErrClosed
+	ErrWriteToConnected = net.ErrWriteToConnected
+	DefaultResolver     = net.DefaultResolver
+)
+
+const (
+	IPv4len = net.IPv4len
+	IPv6len = net.IPv6len
+)
+
+// pure helpers (no I/O): the real ones
+func SplitHostPort(hostport string) (string, string, error) { return net.SplitHostPort(hostport) }
+func JoinHostPort(host, port string) string                  { return net.JoinHostPort(host, port) }
+func ParseIP(s string) net.IP                                { return net.ParseIP(s) }
+func ParseCIDR(s string) (net.IP, *net.IPNet, error)         { return net.ParseCIDR(s) }
+func IPv4(a, b, c, d byte) net.IP                            { return net.IPv4(a, b, c, d) }
+func ResolveTCPAddr(network, address string) (*net.TCPAddr, error) {
+	host, port, err := net.SplitHostPort(address)
+	if err != nil {
+		return nil, err
+	}
+	p := 0
+	fmt.Sscanf(port, "%d", &p)
+	return &net.TCPAddr{IP: net.ParseIP(host), Port: p}, nil
+}
 
 // Acceptor is the server side of an address (a Redis double).
 type Acceptor interface {
@@ -138,9 +181,21 @@ func (n *Net) dial(addr string) (*SimConn, error) {
 
 // Dialer mirrors the fields of net.Dialer the repository uses.
 type Dialer struct {
-	Timeout   time.Duration
-	Deadline  time.Time
-	KeepAlive time.Duration
+	Timeout       time.Duration
+	Deadline      time.Time
+	KeepAlive     time.Duration
+	LocalAddr     net.Addr
+	FallbackDelay time.Duration
+	DualStack     bool
+	Resolver      *net.Resolver
+	Cancel        <-chan struct{}
+}
+
+func (d *Dialer) DialContext(ctx context.Context, network, address string) (net.Conn, error) {
+	if err := ctx.Err(); err != nil {
+		return nil, err
+	}
+	return d.Dial(network, address)
 }
 
 func (d *Dialer) Dial(network, address string) (net.Conn, error) {
